@@ -306,8 +306,23 @@ static void null_frees(void)
   econf_ext_value *ev = NULL; econf_getExtValue(kf, "A", "x", &ev); if (ev) { use_u64(ev->line_number); econf_freeExtValue(ev); }
   if (econf_freeFile(kf) != NULL) mc_fail("nullfree", "econf_freeFile(object) did not return NULL");
   ledger_check("nullfree", "the free functions");
+  /* the process-wide drop-in directory list is owned by the library: replacing it any number of times (also by the empty list, which
+   * stands for the default) must free the old list exactly once. There is no call that releases the last list, so the ledger is
+   * not consulted here; double frees and uses after free are AddressSanitizer's. */
+  ledger_in_lib = 0;
+  {
+    const char *two[] = { ".d", ".x.d", NULL }, *one[] = { ".conf.d", NULL }, *none[] = { NULL };
+    const char **seq[] = { two, none, one, one, none, none, two, none };
+    for (size_t i = 0; i < sizeof seq / sizeof seq[0]; i++) {
+      econf_err rc = econf_set_conf_dirs(seq[i]);
+      if (rc != ECONF_SUCCESS) mc_fail("nullfree", "econf_set_conf_dirs (step %zu of the sequence) returned %d", i, (int)rc);
+      econf_file *r = NULL; char pth[400]; snprintf(pth, sizeof pth, "%s/nonexistent-dir", mc_work);
+      (void)econf_readDirs(&r, pth, pth, "cfg", "conf", "=", "#"); if (r) econf_freeFile(r);
+    }
+  }
+  if (mc_asan_hit) mc_fail("nullfree", "AddressSanitizer report while replacing the process-wide drop-in directory list");
   mc_st->executed++; mc_st->compared++; mc_st->nontrivial += 2;
-  mc_sample("econf_freeFile(NULL), econf_freeArray(NULL), econf_freeExtValue(NULL)");
+  mc_sample("econf_freeFile(NULL), econf_freeArray(NULL), econf_freeExtValue(NULL); econf_set_conf_dirs replaced 8 times");
 }
 
 int main(int argc, char **argv)
